@@ -64,6 +64,7 @@ def run(ctx):
             one_family(ctx, n, w0, z, dx, lam, METHODS)
     lens_family(ctx, dx, lam)
     stack_family(ctx, dx, lam)
+    W.storage_independence(ctx, 'C04')
 
 
 def one_family(ctx, n, w0, z, dx, lam, methods):
